@@ -72,8 +72,16 @@ def rand_arg(U, rng, d, p, depth, allow_ser_only):
     if p in need_zc:
         return rand_zc_type(U, rng, depth)
     bare = any(te[0] == "param" and te[1] == p for (_, te) in all_fields(d))
-    t = rand_type(U, rng, depth, allow_ser_only=allow_ser_only and bare)
-    return t
+    for _ in range(50):
+        t = rand_type(U, rng, depth, allow_ser_only=allow_ser_only and bare)
+        # a parameter used as a sequence/array element must be ZeroCopy when its copy kind is Zero
+        if bare or getattr(d, "usage", {}).get(p) == "phantom" or valid_elem(U, t):
+            return t
+    return ("string",)
+
+
+def valid_elem(U, t):
+    return zc_ok(U, t) if is_zc(U, t) else True
 
 
 def all_fields(d):
@@ -172,11 +180,12 @@ def make_def(U, rng, idx):
     # instantiated with zero-copy types or deep types according to the impls available; we
     # instantiate them with any type (Vec<A> picks its impl from A::Copy).
     for p in tparams:
-        if usage[p] != "phantom" and rng.random() < 0.25:
+        # (inline bounds on a field-typed parameter of an *enum* do not compile: boundary probe of C05)
+        if usage[p] != "phantom" and not (kind == "enum" and usage[p] == "bare") and rng.random() < 0.25:
             bounds[p] = rng.choice(["Clone", "core::fmt::Debug", "Clone + core::fmt::Debug"])
         if usage[p] == "inside" and rng.random() < 0.3 and p not in bounds:
             where.append("%s: Clone" % p)
-    if tparams and rng.random() < 0.25:
+    if tparams and not cparams and rng.random() < 0.25:
         p = tparams[-1]
         defaults[p] = ("prim", rng.choice(["u32", "u64", "i16"])) if usage[p] != "inside" or True else ("prim", "u8")
     d = Def(name, kind, copy, reprs, tparams, cparams, body, style=style, bounds=bounds,
